@@ -4,11 +4,19 @@
   The argument decoders of the model are driven by `Gen.Amqp.methods`, re-translated from
   spec091.go on every run; the correspondence check compares, on every generated frame
   sequence, the real dissector, the model and the reports the spec demands.
-  Theorems: the big-endian codec and the string round trips every decoder is built from
-  (for every value and every following bytes), and that heartbeats and frames the dissector
-  does not report leave its state as it was.
-  Partial: the round trip of whole method frames with field tables (`readArgs ∘ encArgs`) and
-  frame exactness are checked on every generated case, not yet proved.
+
+  Theorems
+  * codec: big-endian integers of every width, signed integers, short and long strings
+    round-trip for every value and every continuation;
+  * field tables (`c05_field_enc`, `c05_items_enc`, `c05_pairs_enc`, `c05_table_enc`): mutual
+    induction over `FVal` - all 14 field types, any nesting, any bytes;
+  * packed flags (`bit_pack`, `flags_zip`);
+  * method arguments (`c05_args_enc`) and whole frames (`c05_method_frame`, `c05_body_frame`):
+    a frame produced by the reference encoder is read back as exactly that method with exactly
+    those named values, and reading resumes right after its end octet;
+  * heartbeats and methods the dissector does not report leave its state as it was.
+  Partial: content headers (`readProps`) and the assembly of a content across frames are
+  checked on every generated case, not proved.
 -/
 import KsVerif.Amqp.Spec
 
@@ -122,5 +130,479 @@ theorem unreported_method_no_event (isClient : Bool) (s : DState) (ch c m : Nat)
 /-- Non-vacuity: a 255-byte short string followed by more data. -/
 example : readShortStr { rem := be 1 3 ++ [1, 2, 3] ++ [9], tail := .eof } = .ok ([1, 2, 3], { rem := [9], tail := .eof }) :=
   readShortStr_exact [1, 2, 3] [9] .eof (by decide)
+
+/-! ### field tables: `readTable` / `readField` invert the encoder -/
+
+def i16ok (n : Int) : Bool := -32768 ≤ n && n ≤ 32767
+def i32ok (n : Int) : Bool := -2147483648 ≤ n && n ≤ 2147483647
+def i64ok (n : Int) : Bool := -9223372036854775808 ≤ n && n ≤ 9223372036854775807
+
+mutual
+  /-- values the wire format can carry: integers within their width, lengths that fit their
+      prefix (and stay below 2³¹, beyond which the reader gives up) -/
+  def confF : FVal → Bool
+    | .bool _ => true
+    | .byte n => decide (n < 256)
+    | .i16 n => i16ok n
+    | .i32 n => i32ok n
+    | .i64 n => i64ok n
+    | .f32 n => decide (n < 4294967296)
+    | .f64 n => decide (n < 18446744073709551616)
+    | .decimal s v => decide (s < 256) && i32ok v
+    | .str s => decide (s.length ≤ 2147483647)
+    | .arr xs => confFs xs && decide ((encFVals xs).length < 4294967296)
+    | .time t => i64ok t
+    | .table kvs => confPairs kvs && decide ((encPairs kvs).length ≤ 2147483647)
+    | .nil => true
+    | .bytes b => decide (b.length ≤ 2147483647)
+  def confFs : List FVal → Bool
+    | [] => true
+    | x :: xs => confF x && confFs xs
+  def confPairs : List (Bytes × FVal) → Bool
+    | [] => true
+    | (k, v) :: rest => decide (k.length < 256) && confF v && confPairs rest
+end
+
+mutual
+  def needF : FVal → Nat
+    | .arr xs => 1 + needFs xs
+    | .table kvs => 2 + needPairs kvs
+    | _ => 1
+  def needFs : List FVal → Nat
+    | [] => 2
+    | x :: xs => 1 + max (needF x) (needFs xs)
+  def needPairs : List (Bytes × FVal) → Nat
+    | [] => 1
+    | (_, v) :: rest => 1 + max (needF v) (needPairs rest)
+end
+
+theorem readUInt1 (b : UInt8) (rest : Bytes) (tail : Tail) :
+    readUInt 1 { rem := b :: rest, tail } = .ok (b.toNat, { rem := rest, tail }) := by
+  simp [readUInt, readFull, beNat]
+
+theorem readUInt_beInt (k : Nat) (hk : k = 2 ∨ k = 4 ∨ k = 8) (v : Int)
+    (hv : -(2 ^ (8 * k - 1) : Nat) ≤ v ∧ v < (2 ^ (8 * k - 1) : Nat)) (rest : Bytes) (tail : Tail) :
+    ∃ u, readUInt k { rem := beInt k v ++ rest, tail } = .ok (u, { rem := rest, tail }) ∧ toSigned k u = v := by
+  unfold beInt
+  by_cases hneg : v < 0
+  · simp only [hneg, if_true]
+    refine ⟨(v + 2 ^ (8 * k)).toNat, readUInt_be k _ ?_ rest tail, ?_⟩
+    · rcases hk with rfl | rfl | rfl <;> simp at hv ⊢ <;> omega
+    · unfold toSigned
+      rcases hk with rfl | rfl | rfl <;> simp at hv ⊢ <;> omega
+  · simp only [hneg, if_false]
+    refine ⟨v.toNat, readUInt_be k _ ?_ rest tail, ?_⟩
+    · rcases hk with rfl | rfl | rfl <;> simp at hv ⊢ <;> omega
+    · unfold toSigned
+      rcases hk with rfl | rfl | rfl <;> simp at hv ⊢ <;> omega
+
+theorem be1 (n : Nat) : be 1 n = [UInt8.ofNat n] := by
+  simp [be]
+  apply UInt8.toNat_inj.mp
+  simp
+
+theorem readFull_eof_empty (k : Nat) (hk : k ≠ 0) :
+    readFull k { rem := [], tail := .eof } = fail .eof { rem := [], tail := .eof } := by
+  simp [readFull, hk, fail]
+
+mutual
+  /-- **Field values round-trip**: every conforming value - any nesting of arrays and tables,
+      any bytes in strings - followed by anything at all is read back exactly, and reading resumes
+      right after its encoding. -/
+  theorem c05_field_enc : ∀ (v : FVal), confF v = true → ∀ (fuel : Nat), needF v ≤ fuel → ∀ (rest : Bytes) (tail : Tail),
+      readField fuel { rem := encFVal v ++ rest, tail } = .ok (v, { rem := rest, tail })
+    | .bool b, _, fuel, hf, rest, tail => by
+      cases fuel with
+      | zero => simp [needF] at hf
+      | succ f => cases b <;> simp [readField, encFVal, readUInt1]
+    | .byte n, hc, fuel, hf, rest, tail => by
+      cases fuel with
+      | zero => simp [needF] at hf
+      | succ f =>
+        simp only [confF, decide_eq_true_eq] at hc
+        simp [readField, encFVal, readUInt1, Nat.mod_eq_of_lt hc]
+    | .i16 n, hc, fuel, hf, rest, tail => by
+      cases fuel with
+      | zero => simp [needF] at hf
+      | succ f =>
+        simp only [confF, i16ok, Bool.and_eq_true, decide_eq_true_eq] at hc
+        obtain ⟨u, hu, hs⟩ := readUInt_beInt 2 (by simp) n (by simp; omega) rest tail
+        simp [readField, encFVal, readUInt1, hu, hs]
+    | .i32 n, hc, fuel, hf, rest, tail => by
+      cases fuel with
+      | zero => simp [needF] at hf
+      | succ f =>
+        simp only [confF, i32ok, Bool.and_eq_true, decide_eq_true_eq] at hc
+        obtain ⟨u, hu, hs⟩ := readUInt_beInt 4 (by simp) n (by simp; omega) rest tail
+        simp [readField, encFVal, readUInt1, hu, hs]
+    | .i64 n, hc, fuel, hf, rest, tail => by
+      cases fuel with
+      | zero => simp [needF] at hf
+      | succ f =>
+        simp only [confF, i64ok, Bool.and_eq_true, decide_eq_true_eq] at hc
+        obtain ⟨u, hu, hs⟩ := readUInt_beInt 8 (by simp) n (by simp; omega) rest tail
+        simp [readField, encFVal, readUInt1, hu, hs]
+    | .f32 n, hc, fuel, hf, rest, tail => by
+      cases fuel with
+      | zero => simp [needF] at hf
+      | succ f =>
+        simp only [confF, decide_eq_true_eq] at hc
+        have hu := readUInt_be 4 n (by omega) rest tail
+        simp [readField, encFVal, readUInt1, hu]
+    | .f64 n, hc, fuel, hf, rest, tail => by
+      cases fuel with
+      | zero => simp [needF] at hf
+      | succ f =>
+        simp only [confF, decide_eq_true_eq] at hc
+        have hu := readUInt_be 8 n (by omega) rest tail
+        simp [readField, encFVal, readUInt1, hu]
+    | .decimal sc v, hc, fuel, hf, rest, tail => by
+      cases fuel with
+      | zero => simp [needF] at hf
+      | succ f =>
+        simp only [confF, i32ok, Bool.and_eq_true, decide_eq_true_eq] at hc
+        obtain ⟨u, hu, hs⟩ := readUInt_beInt 4 (by simp) v (by simp; omega) rest tail
+        simp [readField, encFVal, readUInt1, hu, hs, Nat.mod_eq_of_lt hc.1]
+    | .str s, hc, fuel, hf, rest, tail => by
+      cases fuel with
+      | zero => simp [needF] at hf
+      | succ f =>
+        simp only [confF, decide_eq_true_eq] at hc
+        have hl := readLongStr_exact s rest tail hc
+        simp only [List.append_assoc] at hl
+        simp [readField, encFVal, readUInt1, hl]
+    | .arr xs, hc, fuel, hf, rest, tail => by
+      cases fuel with
+      | zero => simp [needF] at hf
+      | succ f =>
+        simp only [confF, Bool.and_eq_true, decide_eq_true_eq] at hc
+        have hu := readUInt_be 4 (encFVals xs).length (by omega) (encFVals xs ++ rest) tail
+        have hi := c05_items_enc xs hc.1 f (by simp only [needF] at hf; omega)
+        simp [readField, encFVal, readUInt1, hu, hi]
+    | .time t, hc, fuel, hf, rest, tail => by
+      cases fuel with
+      | zero => simp [needF] at hf
+      | succ f =>
+        simp only [confF, i64ok, Bool.and_eq_true, decide_eq_true_eq] at hc
+        obtain ⟨u, hu, hs⟩ := readUInt_beInt 8 (by simp) t (by simp; omega) rest tail
+        simp [readField, encFVal, readUInt1, hu, hs]
+    | .table kvs, hc, fuel, hf, rest, tail => by
+      cases fuel with
+      | zero => simp [needF] at hf
+      | succ f =>
+        cases f with
+        | zero => simp only [needF] at hf; omega
+        | succ g =>
+          simp only [confF, Bool.and_eq_true, decide_eq_true_eq] at hc
+          have hl := readLongStr_exact (encPairs kvs) rest tail hc.2
+          have hp := c05_pairs_enc kvs hc.1 g (by simp only [needF] at hf; omega)
+          simp only [List.append_assoc] at hl
+          simp [readField, readTable, encFVal, encTable, readUInt1, hl, hp]
+    | .nil, _, fuel, hf, rest, tail => by
+      cases fuel with
+      | zero => simp [needF] at hf
+      | succ f => simp [readField, encFVal, readUInt1]
+    | .bytes b, hc, fuel, hf, rest, tail => by
+      cases fuel with
+      | zero => simp [needF] at hf
+      | succ f =>
+        simp only [confF, decide_eq_true_eq] at hc
+        have hu := readUInt_be 4 b.length (by omega) (b ++ rest) tail
+        have hfull := readFull_exact b rest tail
+        have hs : toSigned 4 b.length = (b.length : Int) := by unfold toSigned; simp; omega
+        simp [readField, encFVal, readUInt1, hu, hs, readBytesN, hfull]
+        intro hneg; omega
+  theorem c05_items_enc : ∀ (xs : List FVal), confFs xs = true → ∀ (fuel : Nat), needFs xs ≤ fuel →
+      readArrayItems fuel { rem := encFVals xs, tail := .eof } = .ok (xs, { rem := [], tail := .eof })
+    | [], _, fuel, hf => by
+      cases fuel with
+      | zero => simp [needFs] at hf
+      | succ f =>
+        cases f with
+        | zero => simp [needFs] at hf
+        | succ g => simp [readArrayItems, readField, encFVals, readUInt, readFull_eof_empty, fail]
+    | x :: xs, hc, fuel, hf => by
+      cases fuel with
+      | zero => simp [needFs] at hf
+      | succ f =>
+        simp only [confFs, Bool.and_eq_true] at hc
+        simp only [needFs] at hf
+        have h1 := c05_field_enc x hc.1 f (by omega) (encFVals xs) .eof
+        have h2 := c05_items_enc xs hc.2 f (by omega)
+        simp [readArrayItems, encFVals, h1, h2]
+  theorem c05_pairs_enc : ∀ (kvs : List (Bytes × FVal)), confPairs kvs = true → ∀ (fuel : Nat), needPairs kvs ≤ fuel →
+      readPairs fuel { rem := encPairs kvs, tail := .eof } = .ok kvs
+    | [], _, fuel, hf => by
+      cases fuel with
+      | zero => simp [needPairs] at hf
+      | succ f => simp [readPairs, encPairs]
+    | (k, v) :: rest, hc, fuel, hf => by
+      cases fuel with
+      | zero => simp [needPairs] at hf
+      | succ f =>
+        simp only [confPairs, Bool.and_eq_true, decide_eq_true_eq] at hc
+        simp only [needPairs] at hf
+        have hk := readShortStr_exact k (encFVal v ++ encPairs rest) .eof hc.1.1
+        have h1 := c05_field_enc v hc.1.2 f (by omega) (encPairs rest) .eof
+        have h2 := c05_pairs_enc rest hc.2 f (by omega)
+        simp only [be1, List.cons_append, List.nil_append] at hk
+        simp [readPairs, encPairs, hk, h1, h2]
+end
+
+/-- **Field tables round-trip.** -/
+theorem c05_table_enc (kvs : List (Bytes × FVal)) (hc : confPairs kvs = true) (hl : (encPairs kvs).length ≤ 2147483647)
+    (fuel : Nat) (hf : 1 + needPairs kvs ≤ fuel) (rest : Bytes) (tail : Tail) :
+    readTable fuel { rem := encTable kvs ++ rest, tail } = .ok (kvs, { rem := rest, tail }) := by
+  cases fuel with
+  | zero => omega
+  | succ f =>
+    have hs := readLongStr_exact (encPairs kvs) rest tail hl
+    have hp := c05_pairs_enc kvs hc f (by omega)
+    simp only [List.append_assoc] at hs
+    simp [readTable, encTable, hs, hp]
+
+/-! ### fuel: the frame length is enough -/
+
+mutual
+  theorem needF_le : ∀ v : FVal, needF v ≤ (encFVal v).length + 1
+    | .bool _ | .byte _ | .i16 _ | .i32 _ | .i64 _ | .f32 _ | .f64 _ | .decimal _ _ | .str _ | .time _ | .nil | .bytes _ => by
+      simp [needF]
+    | .arr xs => by
+      have := needFs_le xs
+      simp only [needF, encFVal, List.length_cons, List.length_append, be_length]; omega
+    | .table kvs => by
+      have := needPairs_le kvs
+      simp only [needF, encFVal, encTable, List.length_cons, List.length_append, be_length]; omega
+  theorem needFs_le : ∀ xs : List FVal, needFs xs ≤ (encFVals xs).length + 2
+    | [] => by simp [needFs]
+    | x :: xs => by
+      have h1 := needF_le x
+      have h2 := needFs_le xs
+      have h3 : 1 ≤ (encFVal x).length := by cases x <;> simp [encFVal]
+      simp only [needFs, encFVals, List.length_append]; omega
+  theorem needPairs_le : ∀ kvs : List (Bytes × FVal), needPairs kvs ≤ (encPairs kvs).length + 1
+    | [] => by simp [needPairs]
+    | (k, v) :: rest => by
+      have h1 := needF_le v
+      have h2 := needPairs_le rest
+      simp only [needPairs, encPairs, List.length_cons, List.length_append]; omega
+end
+
+/-! ### bit fields -/
+
+/-- the octet a list of flags is packed into (bit k = k-th flag) -/
+def packBits : List Bool → Nat
+  | [] => 0
+  | b :: bs => (if b then 1 else 0) + 2 * packBits bs
+
+theorem packBits_lt : ∀ bs : List Bool, packBits bs < 2 ^ bs.length
+  | [] => by simp [packBits]
+  | b :: bs => by
+    have := packBits_lt bs
+    cases b <;> simp [packBits, Nat.pow_succ] <;> omega
+
+theorem foldl_add_shift (l : List Nat) (a : Nat) : l.foldl (· + ·) a = a + l.foldl (· + ·) 0 := by
+  induction l generalizing a with
+  | nil => simp
+  | cons x xs ih => simp only [List.foldl_cons, Nat.zero_add]; rw [ih (a + x), ih x]; omega
+
+theorem zipIdx_pack (bs : List Bool) : ∀ k : Nat,
+    ((bs.zipIdx k).map fun (b, i) => if b then 2 ^ i else 0).foldl (· + ·) 0 = 2 ^ k * packBits bs := by
+  induction bs with
+  | nil => intro k; simp [packBits]
+  | cons b bs ih =>
+    intro k
+    simp only [List.zipIdx_cons, List.map_cons, List.foldl_cons, Nat.zero_add]
+    rw [foldl_add_shift, ih (k + 1)]
+    cases b <;> simp [packBits, Nat.pow_succ, Nat.mul_add, Nat.mul_assoc]
+
+theorem bit_pack : ∀ (bs : List Bool) (i : Nat), bit (packBits bs) i = bs.getD i false
+  | [], i => by simp [bit, packBits]
+  | b :: bs, 0 => by cases b <;> simp [bit, packBits] <;> omega
+  | b :: bs, i + 1 => by
+    have ih := bit_pack bs i
+    have hdiv : ((if b then 1 else 0) + 2 * packBits bs) / 2 ^ (i + 1) = packBits bs / 2 ^ i := by
+      rw [Nat.pow_succ, Nat.mul_comm (2 ^ i) 2, ← Nat.div_div_eq_div_mul]
+      congr 1
+      cases b <;> simp <;> omega
+    simp only [bit, packBits, hdiv, List.getD_cons_succ] at ih ⊢
+    exact ih
+
+theorem flags_zip (names : List String) : ∀ (bs : List Bool) (k V : Nat),
+    (∀ j, j < bs.length → bit V (k + j) = bs.getD j false) → names.length = bs.length →
+    (names.zipIdx k).map (fun (n, i) => (n, AVal.flag (bit V i))) = names.zip (bs.map AVal.flag) := by
+  induction names with
+  | nil => intro bs k V _ _; simp
+  | cons n ns ih =>
+    intro bs k V hb hl
+    cases bs with
+    | nil => simp at hl
+    | cons b bs =>
+      have h0 := hb 0 (by simp)
+      simp only [Nat.add_zero, List.getD_cons_zero] at h0
+      have := ih bs (k + 1) V (fun j hj => by
+        have := hb (j + 1) (by simp; omega)
+        simpa [Nat.add_assoc, Nat.add_comm 1 j] using this) (by simpa using hl)
+      simp [List.zipIdx_cons, h0, this]
+
+/-! ### method arguments -/
+
+def confArg : Kind → Arg → Bool
+  | .octet, .octet n => decide (n < 256)
+  | .short, .short n => decide (n < 65536)
+  | .long, .long n => decide (n < 4294967296)
+  | .longlong, .longlong n => decide (n < 18446744073709551616)
+  | .shortstr, .shortstr s => decide (s.length < 256)
+  | .longstr, .longstr s => decide (s.length ≤ 2147483647)
+  | .table, .table t => confPairs t && decide ((encPairs t).length ≤ 2147483647)
+  | .timestamp, .timestamp t => i64ok t
+  | .bits names, .bits bs => decide (names.length = bs.length) && decide (bs.length ≤ 8)
+  | _, _ => false
+
+def confArgs : List (String × Kind) → List Arg → Bool
+  | [], [] => true
+  | (_, k) :: fs, a :: as => confArg k a && confArgs fs as
+  | _, _ => false
+
+def kindNames (name : String) : Kind → List String
+  | .bits names => names
+  | _ => [name]
+
+def argsLen (as : List Arg) : Nat := (encArgs as).length
+
+theorem readKind_enc (name : String) (k : Kind) (a : Arg) (hc : confArg k a = true) (fuel : Nat)
+    (hf : (encArg a).length + 2 ≤ fuel) (rest : Bytes) (tail : Tail) :
+    readKind fuel name k { rem := encArg a ++ rest, tail } =
+      .ok ((kindNames name k).zip (argToAVal a), { rem := rest, tail }) := by
+  cases k <;> cases a <;> simp [confArg] at hc
+  · rename_i n; simp [readKind, encArg, readUInt_be 1 n (by simpa using hc), kindNames, argToAVal, Except.map]
+  · rename_i n; simp [readKind, encArg, readUInt_be 2 n (by simpa using hc), kindNames, argToAVal, Except.map]
+  · rename_i n; simp [readKind, encArg, readUInt_be 4 n (by simpa using hc), kindNames, argToAVal, Except.map]
+  · rename_i n; simp [readKind, encArg, readUInt_be 8 n (by simpa using hc), kindNames, argToAVal, Except.map]
+  · rename_i s
+    have := readShortStr_exact s rest tail hc
+    simp only [be1, List.cons_append, List.nil_append] at this
+    simp [readKind, encArg, this, kindNames, argToAVal, Except.map]
+  · rename_i s
+    have := readLongStr_exact s rest tail hc
+    simp only [List.append_assoc] at this
+    simp [readKind, encArg, this, kindNames, argToAVal, Except.map]
+  · rename_i t
+    have hn := needPairs_le t
+    have := c05_table_enc t hc.1 hc.2 fuel (by
+      simp only [encArg, encTable, List.length_append, be_length] at hf; omega) rest tail
+    simp [readKind, encArg, this, kindNames, argToAVal, Except.map]
+  · rename_i t
+    simp only [i64ok, Bool.and_eq_true, decide_eq_true_eq] at hc
+    obtain ⟨u, hu, hs⟩ := readUInt_beInt 8 (by simp) t (by simp; omega) rest tail
+    simp [readKind, encArg, hu, hs, kindNames, argToAVal, Except.map]
+  · rename_i names bs
+    have hp := zipIdx_pack bs 0
+    simp only [Nat.pow_zero, Nat.one_mul] at hp
+    have hlt := packBits_lt bs
+    have h256 : packBits bs < 256 := by
+      have : 2 ^ bs.length ≤ 2 ^ 8 := Nat.pow_le_pow_right (by decide) hc.2
+      omega
+    have hu := readUInt1 (UInt8.ofNat (packBits bs)) rest tail
+    have htn : (UInt8.ofNat (packBits bs)).toNat = packBits bs := by simp [Nat.mod_eq_of_lt h256]
+    rw [htn] at hu
+    have hz := flags_zip names bs 0 (packBits bs) (fun j _ => by simpa using bit_pack bs j) hc.1
+    simp only [List.zipIdx] at hz
+    simp [readKind, encArg, hp, hu, kindNames, argToAVal, Except.map, hz]
+
+theorem encArg_len_le (a : Arg) (as : List Arg) : (encArg a).length ≤ (encArgs (a :: as)).length := by
+  simp [encArgs]
+
+/-- **Method arguments round-trip**: for every field list (of the regenerated method table or
+    any other) and conforming argument values, `readArgs` returns the named values the
+    statement demands and resumes right after the arguments. -/
+theorem c05_args_enc : ∀ (fields : List (String × Kind)) (as : List Arg), confArgs fields as = true →
+    ∀ (fuel : Nat), (encArgs as).length + 2 ≤ fuel → ∀ (rest : Bytes) (tail : Tail),
+    readArgs fuel fields { rem := encArgs as ++ rest, tail } =
+      .ok ((argNames fields).zip (as.flatMap argToAVal), { rem := rest, tail })
+  | [], [], _, fuel, _, rest, tail => by simp [readArgs, encArgs, argNames]
+  | [], _ :: _, hc, _, _, _, _ => by simp [confArgs] at hc
+  | _ :: _, [], hc, _, _, _, _ => by simp [confArgs] at hc
+  | (n, k) :: fs, a :: as, hc, fuel, hf, rest, tail => by
+    simp only [confArgs, Bool.and_eq_true] at hc
+    have hlen : (encArgs (a :: as)).length = (encArg a).length + (encArgs as).length := by simp [encArgs]
+    have h1 := readKind_enc n k a hc.1 fuel (by omega) (encArgs as ++ rest) tail
+    have h2 := c05_args_enc fs as hc.2 fuel (by omega) rest tail
+    have he : encArgs (a :: as) ++ rest = encArg a ++ (encArgs as ++ rest) := by simp [encArgs]
+    have hlz : (kindNames n k).length = (argToAVal a).length := by
+      cases k <;> cases a <;> simp [confArg] at hc <;> simp [kindNames, argToAVal]
+      exact hc.1.1
+    rw [he]
+    simp only [readArgs, h1, h2]
+    have hn : argNames ((n, k) :: fs) = kindNames n k ++ argNames fs := by
+      cases k <;> simp [argNames, kindNames]
+    rw [hn, List.flatMap_cons, List.zip_append hlz]
+
+/-! ### whole frames -/
+
+theorem readFull7 (typ ch len : Nat) (htyp : typ < 256) (hch : ch < 65536) (hlen : len < 4294967296) (rest : Bytes) (tail : Tail) :
+    readFull 7 { rem := be 1 typ ++ be 2 ch ++ be 4 len ++ rest, tail } =
+      .ok (be 1 typ ++ be 2 ch ++ be 4 len, { rem := rest, tail }) := by
+  have := readFull_exact (be 1 typ ++ be 2 ch ++ be 4 len) rest tail
+  simpa [be_length] using this
+
+/-- **Body frames**: any payload bytes, any channel. -/
+theorem c05_body_frame (ch : Nat) (payload rest : Bytes) (tail : Tail) (hch : ch < 65536) (hl : payload.length ≤ 16000000) :
+    readFrame { rem := encFrame (.body ch payload) ++ rest, tail } = .ok (.body ch payload, { rem := rest, tail }) := by
+  have h7 := readFull7 3 ch payload.length (by decide) hch (by omega) (payload ++ [206] ++ rest) tail
+  have hb := readFull_exact payload ([206] ++ rest) tail
+  have hch' : beNat (be 2 ch) = ch := by rw [beNat_be]; exact Nat.mod_eq_of_lt (by simpa using hch)
+  have hlen' : beNat (be 4 payload.length) = payload.length := by rw [beNat_be]; exact Nat.mod_eq_of_lt (by simp; omega)
+  have hdrop1 : (List.drop 1 (be 1 3 ++ be 2 ch ++ be 4 payload.length)).take 2 = be 2 ch := by
+    simp [be, List.range_succ]
+  have hdrop3 : (List.drop 3 (be 1 3 ++ be 2 ch ++ be 4 payload.length)).take 4 = be 4 payload.length := by
+    simp [be, List.range_succ]
+  have hget : ((be 1 3 ++ be 2 ch ++ be 4 payload.length).getD 0 0).toNat = 3 := by simp [be]
+  simp only [encFrame, frameBytes, List.append_assoc] at h7 hb ⊢
+  unfold readFrame
+  simp only [h7]
+  simp only [List.append_assoc] at hdrop1 hdrop3 hget
+  simp only [hdrop1, hdrop3, hget, hch', hlen']
+  have hnot : ¬ payload.length > 16000000 := by omega
+  by_cases hp : payload = []
+  · subst hp; simp [readFull, frameEnd]
+  · simp [hnot, hp, readFull, frameEnd]
+
+/-- **Method frames are reported exactly**: for every method of the (regenerated) table, any
+    channel, and conforming argument values - strings of any bytes, tables of any nesting, every
+    flag combination - the frame is read back as that method with exactly those named values, and
+    reading resumes right after the frame-end octet. -/
+theorem c05_method_frame (ch c m : Nat) (args : List Arg) (typ : String) (fields : List (String × Kind))
+    (hlook : lookupMethod c m = some (typ, fields)) (hconf : confArgs fields args = true)
+    (hch : ch < 65536) (hc : c < 65536) (hm : m < 65536) (hl : 4 + (encArgs args).length ≤ 16000000)
+    (rest : Bytes) (tail : Tail) :
+    readFrame { rem := encFrame (.method ch c m args) ++ rest, tail } =
+      .ok (.method ch c m typ ((argNames fields).zip (args.flatMap argToAVal)), { rem := rest, tail }) := by
+  let payload := be 2 c ++ be 2 m ++ encArgs args
+  have hpl : payload.length = 4 + (encArgs args).length := by simp [payload, be_length]; omega
+  have h7 := readFull7 1 ch payload.length (by decide) hch (by omega) (payload ++ [206] ++ rest) tail
+  have hch' : beNat (be 2 ch) = ch := by rw [beNat_be]; exact Nat.mod_eq_of_lt (by simpa using hch)
+  have hlen' : beNat (be 4 payload.length) = payload.length := by rw [beNat_be]; exact Nat.mod_eq_of_lt (by simp; omega)
+  have hdrop1 : (List.drop 1 (be 1 1 ++ be 2 ch ++ be 4 payload.length)).take 2 = be 2 ch := by
+    simp [be, List.range_succ]
+  have hdrop3 : (List.drop 3 (be 1 1 ++ be 2 ch ++ be 4 payload.length)).take 4 = be 4 payload.length := by
+    simp [be, List.range_succ]
+  have hget : ((be 1 1 ++ be 2 ch ++ be 4 payload.length).getD 0 0).toNat = 1 := by simp [be]
+  have hcU := readUInt_be 2 c (by simpa using hc) (be 2 m ++ (encArgs args ++ ([206] ++ rest))) tail
+  have hmU := readUInt_be 2 m (by simpa using hm) (encArgs args ++ ([206] ++ rest)) tail
+  have hargs := c05_args_enc fields args hconf
+    ((be 1 1 ++ (be 2 ch ++ (be 4 payload.length ++ (be 2 c ++ (be 2 m ++ (encArgs args ++ ([206] ++ rest))))))).length + 8)
+    (by simp only [List.length_append]; omega) ([206] ++ rest) tail
+  have hnot : ¬ payload.length > 16000000 := by omega
+  simp only [encFrame, frameBytes, List.append_assoc, payload] at h7 hdrop1 hdrop3 hget hlen' hnot hargs ⊢
+  unfold readFrame
+  simp only [h7, hdrop1, hdrop3, hget, hch', hlen', hnot, if_false, if_true, hcU, hmU, hlook, hargs]
+  simp [readFull, frameEnd]
+
+/-- Non-vacuity: `queue.declare` with a nested argument table conforms. -/
+example : confArgs [("reserved1", .short), ("queue", .shortstr), ("flags", .bits ["passive", "durable", "exclusive", "autoDelete", "noWait"]), ("arguments", .table)]
+    [.short 0, .shortstr [113], .bits [false, true, false, false, true],
+     .table [([120], .arr [.i32 (-1), .str [0, 255], .table [([97], .bool true)]])]] = true := by
+  simp [confArgs, confArg, confPairs, confF, confFs, i32ok, encPairs, encFVal, encFVals, encTable, beInt, be]
 
 end KsVerif.Proofs.C05
